@@ -175,6 +175,29 @@ def run(tier, seed):
         nroute += 1
         if not canon.same(c["exp"], got):
             report(c, src, "as the body of a function, at the second call,", got, exc, "second-call")
+    # fourth route: a NAMED verb that is rebound between two evaluations of the same text (the adverb expression is the operand
+    # of an operator, so that whatever the interpreter remembers about the parsed expression is reused)
+    groups = {}
+    for c in cases:
+        if c["f"]["k"] == "lam" and c["f"]["v"] not in ("dec", "pyd", "pym") and c["form"] not in ("while", "scanwhile") and source(c) not in bad_src:
+            groups.setdefault((c["form"], c["ar"], json.dumps(c["a"], sort_keys=True), json.dumps(c["b"], sort_keys=True)), []).append(c)
+    nreb = 0
+    for (form, ar, _, _), cs in groups.items():
+        if len(cs) < 2 or nreb >= 400:
+            continue
+        c1, c2 = cs[0], cs[1]
+        na = ops[json.dumps(c1["a"], sort_keys=True)][0]
+        text = f"0+(nv{ADV[form]}({na}))" if ar == 1 else f"0+(({na})nv{ADV[form]}({ops[json.dumps(c1['b'], sort_keys=True)][0]}))"
+        for c in (c1, c2, c1):
+            K(f"nv::{LAMS[c['f']['v']]}")
+            got, exc = ev1(text)
+            exp = c["exp"]
+            nreb += 1
+            ok = canon.same(exp, got) or (exp["t"] in ("i", "r", "l") and canon.same_mod(exp, got, numeric=True))
+            if not ok:
+                report(c, f"nv::{LAMS[c['f']['v']]};{text}", "with the verb held by the name nv, rebound between evaluations of the same text,", got, exc, "named-verb-rebound")
+                break
+    ev.cov["named_verb_rebinding_evaluations"] = nreb
     for key in order:
         name, o = ops[key]
         now = canon.canon(K(name))
